@@ -70,6 +70,169 @@ def expected(kind, n, pos, failing):
     return "ret=7,nil", [["1:"] + u[pos]]
 
 
+# ---------------------------------------------------------------- call shapes
+# callee -> (XGo text, values returned besides the error, parameter kind, event id)
+CALLEES = {"va": ("va", 0, "any", 200), "e": ("obj.e", 0, "any", 204), "vi": ("vi", 1, "int", 201), "m": ("obj.m", 1, "int", 203),
+           "two": ("two", 1, "two", 202), "f1": ("f1", 1, "none", 1), "f0": ("f0", 0, "none", 1)}
+SUFFIX = {"!": "!", "?": "?", "?:": "?:42"}
+
+
+def arg_text(a):
+    t = a[0]
+    if t == "i":
+        return str(a[1])
+    if t == "s":
+        return '"%s"' % a[1]
+    if t == "spread":
+        return "xs..." if a[1] == "any" else "is..."
+    if t == "nest":
+        return "f1()" + SUFFIX[a[1]]
+    return "p(%d, %d)" % (a[1], a[2])    # probe
+
+
+def shape_valid(sh):
+    name, nvals, par, _ = CALLEES[sh["callee"]]
+    k, style, pos, args = sh["kind"], sh["style"], sh["pos"], sh["args"]
+    if (k == "?:") and nvals != 1:
+        return False
+    if pos == "define" and (nvals != 1 or style == "cmd"):
+        return False                      # command style is a statement form
+    if k == "?:" and pos != "define":
+        return False
+    if k == "?" and nvals == 1 and pos == "stmt":
+        return False                      # the value-discarded finding of the plain grid; not repeated here
+    if style == "bare":
+        return not args
+    if style == "cmd" and not args:
+        return False                      # `f!` without arguments is the bare form
+    spreads = [a for a in args if a[0] == "spread"]
+    if par == "none":
+        return not args
+    if par == "two":
+        return len(args) == 2 and not spreads
+    if spreads:
+        return len(args) == 1 and spreads[0][1] == par
+    return all(a[0] != "s" or par == "any" for a in args)
+
+
+def shape_body(sh):
+    name = CALLEES[sh["callee"]][0]
+    args = ", ".join(arg_text(a) for a in sh["args"])
+    suf = SUFFIX[sh["kind"]]
+    if sh["style"] == "paren":
+        call = "%s(%s)%s" % (name, args, suf)
+    elif sh["style"] == "cmd":
+        call = "%s%s %s" % (name, suf, args)
+    else:
+        call = name + suf
+    b = "\txs := []any{1, 2, 3}\n\tis := []int{4, 5}\n\tobj := &T{}\n\t_, _, _ = xs, is, obj\n"
+    if sh["pos"] == "define":
+        b += "\tx := %s\n\tlg(100, x)\n" % call
+    else:
+        b += "\t%s\n\tlg(90, 0)\n" % call
+    return b + "\treturn 7, nil\n"
+
+
+def flat_args(sh, failing):
+    """What the callee must receive (the documented meaning of `...`), and the events of evaluating the arguments;
+    None as values = an argument's own error-wrapping ended the evaluation."""
+    vals, tr = [], []
+    for a in sh["args"]:
+        t = a[0]
+        if t == "i":
+            vals.append(str(a[1]))
+        elif t == "s":
+            vals.append(a[1].encode().hex())
+        elif t == "spread":
+            vals += ["1", "2", "3"] if a[1] == "any" else ["4", "5"]
+        elif t == "nest":
+            tr.append("1:")
+            if failing and a[1] == "!":
+                return None, tr
+            vals.append("42" if failing else "5")
+        else:
+            tr.append("%d:%d" % (a[1], a[2]))
+            vals.append(str(a[2]))
+    return vals, tr
+
+
+def shape_expected(sh, failing):
+    name, nvals, par, eid = CALLEES[sh["callee"]]
+    vals, tr = flat_args(sh, failing)
+    if vals is None:
+        return "panic=E/1", tr
+    tr = tr + (["1:"] if eid == 1 else ["%d:%d:%s" % (eid, len(vals), ",".join(vals))])
+    if failing:
+        if sh["kind"] == "!":
+            return "panic=E/1", tr
+        if sh["kind"] == "?":
+            return "ret=0,E/1", tr
+        return "ret=7,nil", tr + ["100:42"]
+    return "ret=7,nil", tr + (["100:5"] if sh["pos"] == "define" else ["90:0"])
+
+
+def shape_model(sh, failing):
+    toks = []
+    for a in sh["args"]:
+        t = a[0]
+        if t == "i":
+            toks.append("i%d" % a[1])
+        elif t == "s":
+            toks.append("s" + a[1].encode().hex())
+        elif t == "spread":
+            toks += ["i1", "i2", "i3"] if a[1] == "any" else ["i4", "i5"]
+        elif t == "nest":
+            toks.append("N" + a[1])
+        else:
+            toks.append("P%d,%d" % (a[1], a[2]))
+    return ("shape %s %s %d %s %s" % (KINDS[sh["kind"]], sh["pos"], 1 if failing else 0, sh["callee"], " ".join(toks))).strip()
+
+
+def fixed_shapes():
+    S = lambda kind, style, callee, args, pos="stmt": {"kind": kind, "style": style, "callee": callee, "args": args, "pos": pos}
+    any3, int2 = [("spread", "any")], [("spread", "int")]
+    out = []
+    for kind in ("!", "?"):
+        for callee in ("va", "e"):
+            for style in ("cmd", "paren"):
+                out += [S(kind, style, callee, any3), S(kind, style, callee, [("i", 1), ("s", "a")]), S(kind, style, callee, [("i", 7)])]
+            out += [S(kind, "paren", callee, []), S(kind, "bare", callee, [])]
+    for callee in ("vi", "m"):
+        out += [S("!", "cmd", callee, int2), S("!", "cmd", callee, [("i", 1), ("i", 2)]), S("!", "paren", callee, int2, "define"),
+                S("?", "paren", callee, int2, "define"), S("?:", "paren", callee, [("i", 1), ("i", 2)], "define"), S("!", "bare", callee, [], "define"),
+                S("?", "paren", callee, [], "define")]
+    out += [S("!", "cmd", "two", [("i", 1), ("i", 2)]), S("!", "paren", "two", [("nest", "!"), ("nest", "?:")], "define"),
+            S("!", "cmd", "two", [("nest", "!"), ("i", 3)]), S("?", "paren", "two", [("p", 81, 7), ("nest", "?:")], "define"),
+            S("!", "cmd", "va", [("nest", "!"), ("p", 82, 6), ("s", "z")]), S("?", "cmd", "e", [("p", 81, 1), ("p", 82, 2)]),
+            S("!", "bare", "f1", [], "define"), S("?:", "bare", "f1", [], "define"), S("?", "bare", "f1", [], "define"),
+            S("!", "bare", "f0", []), S("?", "bare", "f0", [])]
+    return [sh for sh in out if shape_valid(sh)]
+
+
+def gen_shape(rng):
+    while True:
+        callee = rng.choice(list(CALLEES))
+        par = CALLEES[callee][2]
+        style = rng.choice(["paren", "cmd", "cmd", "bare"])
+        n = {"none": 0, "two": 2}.get(par, rng.below(4))
+        args = []
+        for _ in range(n):
+            r = rng.below(6)
+            if r == 0 and par in ("any", "int") and n == 1:
+                args.append(("spread", par))
+            elif r == 1:
+                args.append(("nest", rng.choice(["!", "?:"])))
+            elif r == 2:
+                args.append(("p", 81 + len(args), rng.below(9)))
+            elif r == 3 and par == "any":
+                args.append(("s", rng.choice(["a", "bc"])))
+            else:
+                args.append(("i", rng.below(9)))
+        sh = {"kind": rng.choice(["!", "?", "?:"]), "style": style, "callee": callee, "args": args, "pos": rng.choice(["stmt", "define"])}
+        if shape_valid(sh):
+            return sh
+
+
 def gomod(repo):
     req = ""
     for l in open(os.path.join(repo, "go.mod")):
@@ -95,7 +258,11 @@ def run(ctx):
         j = ctx.rng.below(i + 1)
         extra[i], extra[j] = extra[j], extra[i]
     cases = cases + extra[:ctx.n(12, len(extra))]
-    json.dump(cases, open(os.path.join(d, "cases.json"), "w"))
+    # call shapes: parenthesised / command style / bare, variadic callees with and without `...`, methods, nested wrapped calls
+    shapes = fixed_shapes() + [gen_shape(ctx.rng) for _ in range(ctx.n(40, 600))]
+    nplain = len(cases)
+    cases = cases + [{"kind": sh["kind"], "n": CALLEES[sh["callee"]][1], "pos": sh["pos"], "body": shape_body(sh), "shape": sh} for sh in shapes]
+    json.dump([{k: v for k, v in c.items() if k != "shape"} for c in cases], open(os.path.join(d, "cases.json"), "w"))
     ctx.log("phase: gen + go build")
     skip, gobuild = [], {}
     for attempt in range(4):
@@ -136,7 +303,10 @@ def run(ctx):
     mcases, keys = [], []
     for k, c in enumerate(cases):
         for failing in (False, True):
-            mcases.append("%s %d %s %d" % (KINDS[c["kind"]], c["n"], c["pos"], 1 if failing else 0))
+            if "shape" in c:
+                mcases.append(shape_model(c["shape"], failing))
+            else:
+                mcases.append("%s %d %s %d" % (KINDS[c["kind"]], c["n"], c["pos"], 1 if failing else 0))
             keys.append((k, failing))
     rc, mout = ctx.run([model], input="\n".join(mcases) + "\n")
     mres = mout.splitlines()
@@ -149,6 +319,9 @@ def run(ctx):
     for (k, failing), mc in zip(keys, mcases):
         c = cases[k]
         tag = "%s n=%d %s" % (c["kind"], c["n"], c["pos"])
+        if "shape" in c:
+            sh = c["shape"]
+            tag = "shape %s %s %s %s" % (sh["kind"], sh["style"], CALLEES[sh["callee"]][2], "+".join(a[0] for a in sh["args"]) or "noargs")
         hist[tag] = hist.get(tag, 0) + 1
         if status[k] != "ok":
             impl_v.append("COMPILE-ERROR")
@@ -170,8 +343,16 @@ def run(ctx):
             continue
         impl_v.append("%s\t%s" % g)
         nontriv.add(mc)
-        want, traces = expected(c["kind"], c["n"], c["pos"], failing)
         tr = g[1][len("trace=["):-1].split(" ") if g[1] != "trace=[]" else []
+        if "shape" in c:
+            want, wtr = shape_expected(c["shape"], failing)
+            if g[0] != want or tr != wtr:
+                ctx.fail("shape:" + vlib.sha(c["body"]) + (":err" if failing else ":nil"),
+                         "wrapped call `%s` (wrapped call %s): got %s %s, documented %s [%s] (the callee logs id:number-of-arguments:values)"
+                         % (c["body"].splitlines()[4].strip(), "fails" if failing else "succeeds", g[0], g[1], want, " ".join(wtr)),
+                         {"shape": c["shape"], "failing": failing, "source": sources[k], "impl": list(g)})
+            continue
+        want, traces = expected(c["kind"], c["n"], c["pos"], failing)
         if g[0] != want or tr not in traces or tr.count("1:") != 1:
             ctx.fail("use:%s:%d:%s:%s" % (KINDS[c["kind"]], c["n"], c["pos"], "err" if failing else "nil"),
                      "`%s` with %d value(s) at %s, wrapped call %s: got %s %s, documented %s %s"
@@ -181,8 +362,10 @@ def run(ctx):
     ctx.cover(evaluations=len(mcases), distinct_nontrivial=len(nontriv),
               samples=[{"case": mcases[i], "source": sources[keys[i][0]], "impl": impl_v[i], "model": mres[i]} for i in (3, 10, 25, len(mcases) - 1)],
               rule="exhaustive grid {!,?,?:} x {0,1,2} values x {stmt,define,assign,arg,nested,ifcond} restricted to well-typed uses (%d shapes) "
-                   "+ %d seeded repeats, each run with the wrapped call succeeding and failing, in ONE compiled program; "
-                   "non-trivial = distinct (shape, outcome) that compiled and ran" % (len(set(json.dumps(c) for c in cases)), len(cases) - len(set(json.dumps(c) for c in cases))),
+                   "+ %d seeded repeats; call shapes: %d fixed + %d seeded (parenthesised / command style `f! a, b` / bare `f!`, variadic ...any and ...int "
+                   "callees with and without `xs...`, two-parameter callee, methods obj.m / obj.e, zero arguments, nested f1()! / f1()?:42 and probe calls as "
+                   "arguments; callees log the number and values of the arguments they receive); each run with the wrapped call succeeding and failing, in ONE compiled program; "
+                   "non-trivial = distinct (shape, outcome) that compiled and ran" % (len(set(json.dumps(c) for c in cases[:nplain])), nplain - len(set(json.dumps(c) for c in cases[:nplain])), len(fixed_shapes()), len(shapes) - len(fixed_shapes())),
               exhaustive=True, shape_histogram=hist)
     ctx.assume("errors.NewFrame(err, ...) wraps: errors.Unwrap reaches the original error (checked on the implementation by the harness through the Unwrap chain)",
                "the wrapped expression is stable: its evaluation does not depend on compiler-generated names (_gop_err, _gop_ret, _autoGo_N)")
